@@ -141,6 +141,37 @@ both!(u8_memoindex_arb, u8_memoindex_rand, 10, |src| {
     }
 });
 
+// ---- MutatorKind::create forwards the unsafe flag (the generator contracts assume the registered mutators were
+// built with the generator's own mode: `mutators_consistent`) -----------------------------------------
+both!(u8_create_mode_arb, u8_create_mode_rand, 10, |src| {
+    let unsafe_mode: bool = kani::any();
+    let v: usize = kani::any();
+    let rate = any_rate();
+    let m = MutatorKind::Memoindex.create(unsafe_mode);
+    assert!(m.is_unsafe() == unsafe_mode, "[C16] MutatorKind::create must build the memo-index mutator in the requested mode");
+    if let Some(x) = m.mutate_memo_index(v, src, rate) {
+        if !unsafe_mode {
+            assert!(x == v || x == v.saturating_add(1) || x == v.saturating_sub(1), "[C16] memo-index created in safe mode must move by at most one");
+        }
+    }
+    // type confusion created in safe mode does nothing
+    let del: [u8; 2] = kani::any();
+    let mut output: Vec<u8> = Vec::with_capacity(8);
+    output.extend_from_slice(&del);
+    let snapshot = EmissionSnapshot {
+        stack_depth: kani::any(), output_len: 0, memo_size: kani::any(),
+        stack_delta: Vec::new(), output_delta: del.to_vec(), memo_delta: Vec::new(),
+    };
+    let t = MutatorKind::Typeconfusion.create(false);
+    let fired = t.post_process(&snapshot, &mut output, src, rate);
+    assert!(!fired, "[C16] type confusion created in safe mode must do nothing");
+    assert!(output.len() == 2 && output[0] == del[0] && output[1] == del[1], "[C16] type confusion created in safe mode must do nothing");
+    // the kinds without a mode are safe
+    assert!(!MutatorKind::Bitflip.create(unsafe_mode).is_unsafe() && !MutatorKind::Boundary.create(unsafe_mode).is_unsafe()
+        && !MutatorKind::Offbyone.create(unsafe_mode).is_unsafe() && !MutatorKind::Stringlen.create(unsafe_mode).is_unsafe()
+        && !MutatorKind::Character.create(unsafe_mode).is_unsafe(), "[C16] value mutators are safe in either mode");
+});
+
 // ---- mutators that do not implement a method return None for it (default trait methods) ---------
 both!(u8_not_applicable_arb, u8_not_applicable_rand, 10, |src| {
     let rate = any_rate();
